@@ -374,3 +374,376 @@ Proof. intros Dd I [ND NI] He He' S E'.
       * assert (F : op_valid c (mkop None (ev_user e) (note_updated e) (OEdit p (cleanup (note_body e)))) = false)
           by (apply (SI _ (Some (RCommentEdit (i_iid iss)))); unfold decide; now rewrite K, R2, T1, Q).
         now rewrite op_valid_edit in F. Qed.
+
+(* ------------------------------------------------------------------ a pass over the events of an issue *)
+
+Lemma step_false c iss ops e : step c iss false ops e = ops.
+Proof. unfold step. destruct e; try reflexivity; destruct (resolve _ ops); reflexivity. Qed.
+
+Lemma step_many c iss ok ops e : resolve (ev_id e) ops = LMany -> step c iss ok ops e = ops.
+Proof. intros R. unfold step. destruct e; try reflexivity; cbn [ev_id] in *; now rewrite R. Qed.
+
+Lemma resolve_many_step c iss ok ops e g : resolve g ops = LMany -> resolve g (step c iss ok ops e) = LMany.
+Proof. intros R. destruct (step_cases c iss ok ops e) as [->|[o [r [-> _]]]]; [exact R|].
+  rewrite resolve_app, R. now destruct (gid_is g o). Qed.
+
+Lemma settled_step c iss ops e e' ok :
+  c_dedupe_labels c = true -> inv_ops c iss ops -> wf_issue iss -> In_ev iss e -> In_ev iss e' ->
+  settled c iss ops e -> settled c iss (step c iss ok ops e') e.
+Proof. intros Dd I W He He' S. destruct (step_cases c iss ok ops e') as [->|[o [r [E _]]]]; [exact S|].
+  rewrite E. eapply settled_app; eauto. Qed.
+
+Definition ensured (c : cfg) (us : list user) (idents : list N) (uid : N) : Prop := In uid idents \/ resolvable c us uid = false.
+
+Lemma ensured_after c us idents uid : ensured c us (idents_after c us idents uid) uid.
+Proof. unfold ensured, idents_after. destruct (memN uid idents) eqn:M; [left; now apply memN_In|].
+  destruct (resolvable c us uid); [left; apply in_or_app; right; now left|now right]. Qed.
+Lemma ensured_mono c us a b uid : (forall x, In x a -> In x b) -> ensured c us a uid -> ensured c us b uid.
+Proof. intros H [E|E]; [left; auto|now right]. Qed.
+Lemma ensured_noop c us idents uid : ensured c us idents uid -> idents_after c us idents uid = idents.
+Proof. unfold idents_after. intros [E|E]; [apply memN_In in E; now rewrite E|]. rewrite E. now destruct (memN uid idents). Qed.
+
+Lemma resolve_many_app g ops d : resolve g ops = LMany -> resolve g (ops ++ d) = LMany.
+Proof. unfold resolve. rewrite positions_app. destruct (positions g ops 0) as [|p [|q t]]; try discriminate. reflexivity. Qed.
+
+Lemma emit_proj r s : rs_idents (emit r s) = rs_idents s /\ rs_bugs (emit r s) = rs_bugs s /\ rs_fault (emit r s) = rs_fault s.
+Proof. repeat split. Qed.
+
+Definition idents_after_event (c : cfg) (us : list user) (idents : list N) (ops : list op) (e : event) : list N :=
+  match e with
+  | EError => idents
+  | _ => match resolve (ev_id e) ops with LMany => idents | _ => idents_after c us idents (ev_user e) end
+  end.
+
+(* one event, no failure pending *)
+Lemma ee_clean c us iss ops s e : rs_fault s = None ->
+  let r := ensure_event c us iss (ops, s) e in
+  fst r = step c iss (person_ok c us (rs_idents s) (ev_user e)) ops e /\
+  rs_bugs (snd r) = rs_bugs s /\ rs_fault (snd r) = None /\
+  rs_idents (snd r) = idents_after_event c us (rs_idents s) ops e.
+Proof. intros F. cbn zeta. unfold ensure_event, idents_after_event.
+  destruct e as [n|l|st|]; [| | |now cbn];
+  (destruct (resolve _ ops) eqn:R;
+   [ | |rewrite step_many by exact R; cbn; auto];
+   (match goal with |- context [ensure_person c us ?u s] =>
+      destruct (ep_clean c us u s F) as [A [B [C D]]]; destruct (ensure_person c us u s) as [s1 ok] end;
+    cbn [fst snd] in *; subst ok;
+    split; [reflexivity|];
+    destruct (person_ok c us (rs_idents s) _); [destruct (decide c iss ops _) as [| |o r]; [|cbn|destruct (op_valid c o); [destruct r|]; cbn]|cbn]; auto)). Qed.
+
+Lemma idents_after_event_incl c us idents ops e x : In x idents -> In x (idents_after_event c us idents ops e).
+Proof. unfold idents_after_event. destruct e; auto; destruct (resolve _ ops); auto; apply idents_after_incl. Qed.
+Lemma grown_after_event c us base cur ops e : grown c us base cur -> grown c us base (idents_after_event c us cur ops e).
+Proof. unfold idents_after_event. destruct e; auto; destruct (resolve _ ops); auto; apply grown_after. Qed.
+
+(* all the events of an issue, no failure pending *)
+Lemma events_clean c us iss base : c_dedupe_labels c = true -> wf_issue iss -> forall evs ops s,
+  rs_fault s = None -> inv_ops c iss ops -> grown c us base (rs_idents s) -> Forall (In_ev iss) evs ->
+  let r := fold_left (ensure_event c us iss) evs (ops, s) in
+  inv_ops c iss (fst r) /\ rs_bugs (snd r) = rs_bugs s /\ rs_fault (snd r) = None /\ grown c us base (rs_idents (snd r)) /\
+  (forall x, In x (rs_idents s) -> In x (rs_idents (snd r))) /\
+  (exists d, fst r = ops ++ d) /\
+  (forall e, In e evs -> person_ok c us base (ev_user e) = true -> settled c iss (fst r) e) /\
+  (forall e, In e evs -> e <> EError -> resolve (ev_id e) (fst r) <> LMany -> ensured c us (rs_idents (snd r)) (ev_user e)) /\
+  (forall e, In_ev iss e -> settled c iss ops e -> settled c iss (fst r) e).
+Proof. intros Dd W. induction evs as [|e t IH]; intros ops s F I G Hev; cbn zeta.
+  - cbn. split; [exact I|]. split; [reflexivity|]. split; [exact F|]. split; [exact G|]. split; [auto|].
+    split; [exists []; now rewrite app_nil_r|]. split; [tauto|]. split; [tauto|auto].
+  - cbn [fold_left]. inversion Hev as [|? ? He Ht]; subst.
+    destruct (ee_clean c us iss ops s e F) as [E1 [E2 [E3 E4]]].
+    destruct (ensure_event c us iss (ops, s) e) as [ops1 s1] eqn:EE. cbn [fst snd] in *.
+    rewrite (grown_ok c us base (rs_idents s) _ G) in E1.
+    assert (I1 : inv_ops c iss ops1) by (subst ops1; now apply inv_ops_step).
+    assert (G1 : grown c us base (rs_idents s1)) by (rewrite E4; now apply grown_after_event).
+    specialize (IH ops1 s1 E3 I1 G1 Ht). cbn zeta in IH.
+    destruct IH as [J1 [J2 [J3 [J4 [J5 [[d J6] [J7 [J8 J9]]]]]]]].
+    assert (Ex : exists d1, ops1 = ops ++ d1).
+    { subst ops1. destruct (step_cases c iss (person_ok c us base (ev_user e)) ops e) as [->|[o [r [-> _]]]]; [exists []; now rewrite app_nil_r|eauto]. }
+    destruct Ex as [d1 Ed1].
+    split; [exact J1|]. split; [congruence|]. split; [exact J3|]. split; [exact J4|].
+    split; [|split; [|split; [|split]]].
+    + intros x Hx. apply J5. rewrite E4. now apply idents_after_event_incl.
+    + exists (d1 ++ d). rewrite J6, Ed1. now rewrite app_assoc.
+    + intros e' [<-|Hin] P; [|now apply J7].
+      apply J9; [exact He|]. subst ops1. rewrite P. now apply step_settles.
+    + intros e' [<-|Hin] NE NM; [|now apply J8].
+      apply (ensured_mono c us (rs_idents s1)); [exact J5|]. rewrite E4. unfold idents_after_event.
+      destruct e; try congruence;
+      (destruct (resolve _ ops) eqn:R; try apply ensured_after; exfalso; apply NM; rewrite J6, Ed1, <- app_assoc; now apply resolve_many_app).
+    + intros e' He' S. apply J9; [exact He'|]. subst ops1. now apply settled_step. Qed.
+
+(* looking again at events that are all settled changes nothing *)
+Lemma events_noop c us iss : forall evs ops s,
+  rs_fault s = None ->
+  (forall e, In e evs -> person_ok c us (rs_idents s) (ev_user e) = true -> settled c iss ops e) ->
+  (forall e, In e evs -> e <> EError -> resolve (ev_id e) ops <> LMany -> ensured c us (rs_idents s) (ev_user e)) ->
+  let r := fold_left (ensure_event c us iss) evs (ops, s) in
+  fst r = ops /\ rs_idents (snd r) = rs_idents s /\ rs_bugs (snd r) = rs_bugs s /\ rs_fault (snd r) = None.
+Proof. induction evs as [|e t IH]; intros ops s F S En; cbn zeta; [cbn; auto|].
+  cbn [fold_left]. destruct (ee_clean c us iss ops s e F) as [E1 [E2 [E3 E4]]].
+  destruct (ensure_event c us iss (ops, s) e) as [ops1 s1] eqn:EE. cbn [fst snd] in *.
+  assert (O : ops1 = ops).
+  { subst ops1. destruct (person_ok c us (rs_idents s) (ev_user e)) eqn:P; [|apply step_false].
+    apply S; [now left|exact P]. }
+  assert (Id : rs_idents s1 = rs_idents s).
+  { rewrite E4. unfold idents_after_event. destruct e; auto;
+    (destruct (resolve _ ops) eqn:R; auto; apply ensured_noop; (apply En; [now left|discriminate|congruence])). }
+  subst ops1. specialize (IH ops s1 E3). cbn zeta in IH. rewrite Id in IH.
+  destruct IH as [K1 [K2 [K3 K4]]].
+  - intros e' H. apply S. now right.
+  - intros e' H. apply En. now right.
+  - repeat split; auto; congruence. Qed.
+
+(* ------------------------------------------------------------------ paginated listings *)
+
+Definition same_core (s s' : rs) : Prop :=
+  rs_idents s' = rs_idents s /\ rs_bugs s' = rs_bugs s /\ rs_res s' = rs_res s /\ rs_fault s' = rs_fault s.
+Lemma same_core_refl s : same_core s s. Proof. repeat split. Qed.
+Lemma same_core_trans a b d : same_core a b -> same_core b d -> same_core a d.
+Proof. intros [A1 [A2 [A3 A4]]] [B1 [B2 [B3 B4]]]. repeat split; congruence. Qed.
+
+Lemma send_clean q s : rs_fault s = None -> exists s', send q s = (s', true) /\ same_core s s'.
+Proof. intros F. unfold send. rewrite F. cbn. eexists. split; [reflexivity|]. repeat split; cbn; auto. Qed.
+
+Lemma skipn_add {A} a b (l : list A) : skipn (a + b) l = skipn b (skipn a l).
+Proof. revert l. induction a as [|a IH]; intros l; cbn; [reflexivity|]. destruct l; [now destruct b|apply IH]. Qed.
+
+Lemma npages_cover {A} p (l : list A) : (1 <= p)%nat -> (length l <= npages p l * p)%nat.
+Proof. intros Hp. unfold npages. set (n := length l).
+  assert (n <= ((n + p - 1) / p) * p)%nat.
+  { pose proof (Nat.div_mod (n + p - 1) p ltac:(lia)) as E. pose proof (Nat.mod_upper_bound (n + p - 1) p ltac:(lia)) as U.
+    rewrite Nat.mul_comm in E. lia. }
+  nia. Qed.
+
+Lemma fetch_pages_clean {A} (mk : nat -> req) p (l : list A) : (1 <= p)%nat -> forall fuel k s,
+  rs_fault s = None -> (1 <= k)%nat -> (fuel + k = npages p l + 1)%nat ->
+  exists s', fetch_pages fuel mk p l k s = (s', skipn ((k - 1) * p) l, false) /\ same_core s s'.
+Proof. intros Hp. pose proof (npages_cover p l Hp) as Cov.
+  induction fuel as [|f IH]; intros k s F Hk E; cbn [fetch_pages].
+  - exists s. split; [|apply same_core_refl]. f_equal. f_equal. symmetry. apply skipn_all2.
+    replace (k - 1)%nat with (npages p l) by lia. exact Cov.
+  - destruct (send_clean (mk k) s F) as [s1 [-> C1]]. cbn [negb].
+    destruct (Nat.leb_spec (npages p l) k) as [Le|Lt].
+    + exists s1. split; [|exact C1]. f_equal. f_equal. unfold page_of. apply firstn_all2. rewrite skipn_length. nia.
+    + assert (F1 : rs_fault s1 = None) by (destruct C1 as [_ [_ [_ X]]]; congruence).
+      destruct (IH (S k) s1 F1 ltac:(lia) ltac:(lia)) as [s2 [-> C2]].
+      exists s2. split; [|eapply same_core_trans; eauto]. f_equal. f_equal. unfold page_of.
+      replace (S k - 1)%nat with (k - 1 + 1)%nat by lia. rewrite Nat.mul_add_distr_r, Nat.mul_1_l, skipn_add.
+      apply firstn_skipn. Qed.
+
+Lemma fetch_all_clean {A} (mk : nat -> req) p (l : list A) s : (1 <= p)%nat -> rs_fault s = None ->
+  exists s', fetch_all mk p l s = (s', l, false) /\ same_core s s'.
+Proof. intros Hp F. unfold fetch_all. destruct (fetch_pages_clean mk p l Hp (npages p l) 1 s F ltac:(lia) ltac:(lia)) as [s' [E C]].
+  exists s'. split; [|exact C]. rewrite E. reflexivity. Qed.
+
+Lemma skipn_In {A} n (l : list A) x : In x (skipn n l) -> In x l.
+Proof. revert l. induction n; intros l; cbn; [auto|]. destruct l; [auto|]. intros H. right. now apply IHn. Qed.
+Lemma firstn_In' {A} n (l : list A) x : In x (firstn n l) -> In x l.
+Proof. revert l. induction n; intros l; cbn; [tauto|]. destruct l; cbn; [tauto|]. intros [H|H]; auto. Qed.
+
+(* in general a listing returns some of the items *)
+Lemma fetch_pages_incl {A} (mk : nat -> req) p (l : list A) : forall fuel k s x,
+  In x (snd (fst (fetch_pages fuel mk p l k s))) -> In x l.
+Proof. induction fuel as [|f IH]; intros k s x; cbn [fetch_pages]; [cbn; tauto|].
+  destruct (send (mk k) s) as [s1 ok]. destruct ok; cbn [negb]; [|cbn; tauto].
+  destruct (Nat.leb (npages p l) k).
+  - cbn. unfold page_of. intros H. apply firstn_In' in H. eapply skipn_In; eauto.
+  - destruct (fetch_pages f mk p l (S k) s1) as [[s2 rest] failed] eqn:E. cbn. intros H. apply in_app_or in H as [H|H].
+    + unfold page_of in H. apply firstn_In' in H. eapply skipn_In; eauto.
+    + apply (IH (S k) s1). now rewrite E. Qed.
+
+
+(* ------------------------------------------------------------------ the merged event stream *)
+
+Lemma merge3_in fuel : forall a b c e, In e (merge3 fuel a b c) -> In e a \/ In e b \/ In e c.
+Proof. induction fuel as [|f IH]; intros a b c e; cbn [merge3]; [cbn; tauto|].
+  destruct (earlier (head_time c) _).
+  - destruct c as [|x c']; [cbn; tauto|]. intros [<-|H]; [right; right; now left|]. apply IH in H. cbn. tauto.
+  - destruct (earlier (head_time b) (head_time a)).
+    + destruct b as [|x b']; [cbn; tauto|]. intros [<-|H]; [right; left; now left|]. apply IH in H. cbn. tauto.
+    + destruct a as [|x a']; [cbn; tauto|]. intros [<-|H]; [left; now left|]. apply IH in H. cbn. tauto. Qed.
+
+Definition evs_of (iss : issue) : list event :=
+  sorted_events (map ENote (i_notes iss)) (map ELabel (i_labels iss)) (map EState (i_states iss)).
+
+Lemma with_error_in evs failed e : In e (with_error evs failed) -> In e evs \/ e = EError.
+Proof. unfold with_error. destruct failed; [|auto]. intros H. apply in_app_or in H as [H|[<-|[]]]; auto. Qed.
+
+Lemma sorted_events_in_ev iss ns ls ss fn fl fs :
+  (forall n, In n ns -> In n (i_notes iss)) -> (forall l, In l ls -> In l (i_labels iss)) -> (forall s, In s ss -> In s (i_states iss)) ->
+  Forall (In_ev iss) (sorted_events (with_error (map ENote ns) fn) (with_error (map ELabel ls) fl) (with_error (map EState ss) fs)).
+Proof. intros Hn Hl Hs. apply Forall_forall. intros e H. unfold sorted_events in H. apply merge3_in in H.
+  destruct H as [H|[H|H]]; apply with_error_in in H as [H| ->]; cbn; auto; apply in_map_iff in H as [x [<- Hx]]; cbn; auto. Qed.
+
+Lemma evs_of_in_ev iss : Forall (In_ev iss) (evs_of iss).
+Proof. apply (sorted_events_in_ev iss _ _ _ false false false); auto. Qed.
+
+(* ------------------------------------------------------------------ the list of bugs *)
+
+Lemma find_bug_iid iid bs b : find_bug iid bs = Some b -> b_iid b = iid.
+Proof. induction bs as [|x t IH]; cbn; [discriminate|]. destruct (N.eqb_spec (b_iid x) iid); [intros H; now inversion H; subst|exact IH]. Qed.
+Lemma find_put_same b bs : find_bug (b_iid b) (put_bug b bs) = Some b.
+Proof. induction bs as [|x t IH]; cbn; [now rewrite N.eqb_refl|].
+  destruct (N.eqb_spec (b_iid x) (b_iid b)); cbn; [now rewrite N.eqb_refl|]. destruct (N.eqb_spec (b_iid x) (b_iid b)); [contradiction|exact IH]. Qed.
+Lemma find_put_other iid b bs : iid <> b_iid b -> find_bug iid (put_bug b bs) = find_bug iid bs.
+Proof. intros Ne. induction bs as [|x t IH]; cbn.
+  - destruct (N.eqb_spec (b_iid b) iid); [congruence|reflexivity].
+  - destruct (N.eqb_spec (b_iid x) (b_iid b)) as [E|E]; cbn.
+    + destruct (N.eqb_spec (b_iid b) iid); [congruence|]. destruct (N.eqb_spec (b_iid x) iid); [congruence|reflexivity].
+    + destruct (N.eqb_spec (b_iid x) iid); [reflexivity|exact IH]. Qed.
+
+(* ------------------------------------------------------------------ one issue, no failure pending *)
+
+Definition create_op (iss : issue) : op :=
+  mkop (Some (i_iid iss)) (i_author iss) (i_created iss) (OCreate (cleanup1 (i_title iss)) (cleanup (i_desc iss))).
+
+Definition finish (c : cfg) (us : list user) (iss : issue) (ops0 : list op) (s : rs) : rs * bool :=
+  let '(ops1, s6) := fold_left (ensure_event c us iss) (evs_of iss) (ops0, s) in
+  if Nat.eqb (length ops1) (length ops0) then (emit (RNothing (i_iid iss)) s6, true)
+  else (set_bugs (put_bug (mkbug (i_iid iss) ops1) (rs_bugs s6)) s6, true).
+
+Lemma import_issue_clean c us p iss s : (1 <= p)%nat -> rs_fault s = None ->
+  let ids1 := idents_after c us (rs_idents s) (i_author iss) in
+  if person_ok c us (rs_idents s) (i_author iss) then
+    match find_bug (i_iid iss) (rs_bugs s) with
+    | Some b => exists s2, rs_idents s2 = ids1 /\ rs_bugs s2 = rs_bugs s /\ rs_fault s2 = None /\
+                           import_issue c us p iss s = finish c us iss (b_ops b) s2
+    | None => if op_valid c (create_op iss)
+              then exists s2, rs_idents s2 = ids1 /\ rs_bugs s2 = put_bug (mkbug (i_iid iss) [create_op iss]) (rs_bugs s) /\ rs_fault s2 = None /\
+                              import_issue c us p iss s = finish c us iss [create_op iss] s2
+              else exists s', import_issue c us p iss s = (s', false) /\ rs_idents s' = ids1 /\ rs_bugs s' = rs_bugs s /\ rs_fault s' = None
+    end
+  else exists s', import_issue c us p iss s = (s', false) /\ rs_idents s' = rs_idents s /\ rs_bugs s' = rs_bugs s /\ rs_fault s' = None.
+Proof. intros Hp F. cbn zeta. unfold import_issue.
+  destruct (ep_clean c us (i_author iss) s F) as [A [B [C D]]].
+  destruct (ensure_person c us (i_author iss) s) as [s1 ok]. cbn [fst snd] in *. subst ok.
+  destruct (person_ok c us (rs_idents s) (i_author iss)) eqn:P; cbn [negb].
+  2:{ eexists. split; [reflexivity|]. cbn. repeat split; auto. unfold idents_after in A. unfold person_ok in P.
+      apply orb_false_iff in P as [P1 P2]. now rewrite P1, P2 in A. }
+  rewrite C. fold (create_op iss).
+  assert (Fin : forall ops0 s2, rs_fault s2 = None ->
+            exists s5, same_core s2 s5 /\
+            (let '(s3, ns, fn) := fetch_all (QNotes (i_iid iss)) p (i_notes iss) s2 in
+             let '(s4, ls, fl) := fetch_all (QLabels (i_iid iss)) p (i_labels iss) s3 in
+             let '(s5, ss, fs) := fetch_all (QStates (i_iid iss)) p (i_states iss) s4 in
+             let evs := sorted_events (with_error (map ENote ns) fn) (with_error (map ELabel ls) fl) (with_error (map EState ss) fs) in
+             let '(ops1, s6) := fold_left (ensure_event c us iss) evs (ops0, s5) in
+             if Nat.eqb (length ops1) (length ops0) then (emit (RNothing (i_iid iss)) s6, true)
+             else (set_bugs (put_bug (mkbug (i_iid iss) ops1) (rs_bugs s6)) s6, true)) = finish c us iss ops0 s5).
+  { intros ops0 s2 F2.
+    destruct (fetch_all_clean (QNotes (i_iid iss)) p (i_notes iss) s2 Hp F2) as [s3 [E3 C3]]. rewrite E3.
+    assert (F3 : rs_fault s3 = None) by (destruct C3 as [_ [_ [_ X]]]; congruence).
+    destruct (fetch_all_clean (QLabels (i_iid iss)) p (i_labels iss) s3 Hp F3) as [s4 [E4 C4]]. rewrite E4.
+    assert (F4 : rs_fault s4 = None) by (destruct C4 as [_ [_ [_ X]]]; congruence).
+    destruct (fetch_all_clean (QStates (i_iid iss)) p (i_states iss) s4 Hp F4) as [s5 [E5 C5]]. rewrite E5.
+    exists s5. split; [eapply same_core_trans; [eapply same_core_trans|]; eauto|]. reflexivity. }
+  destruct (find_bug (i_iid iss) (rs_bugs s)) as [b|] eqn:FB.
+  - destruct (Fin (b_ops b) s1 D) as [s5 [[X1 [X2 [X3 X4]]] E]]. exists s5. repeat split; try congruence. exact E.
+  - destruct (op_valid c (create_op iss)) eqn:V.
+    + set (s2 := emit (RBug (i_iid iss)) (set_bugs (put_bug (mkbug (i_iid iss) [create_op iss]) (rs_bugs s)) s1)).
+      destruct (Fin [create_op iss] s2 D) as [s5 [[X1 [X2 [X3 X4]]] E]]. exists s5.
+      repeat split; try (subst s2; cbn in *; congruence).
+    + eexists. split; [reflexivity|]. cbn. repeat split; auto. Qed.
+
+(* the issue has been looked at completely: its author and the authors of its events are there (or cannot be), its bug exists and
+   all its events are settled *)
+Definition issue_done (c : cfg) (us : list user) (iss : issue) (idents : list N) (bugs : list bug) : Prop :=
+  In (i_author iss) idents /\
+  exists b, find_bug (i_iid iss) bugs = Some b /\ inv_ops c iss (b_ops b) /\
+    (forall e, In e (evs_of iss) -> person_ok c us idents (ev_user e) = true -> settled c iss (b_ops b) e) /\
+    (forall e, In e (evs_of iss) -> e <> EError -> resolve (ev_id e) (b_ops b) <> LMany -> ensured c us idents (ev_user e)).
+
+Lemma finish_first c us iss base ops0 s2 b0 : c_dedupe_labels c = true -> wf_issue iss ->
+  rs_fault s2 = None -> inv_ops c iss ops0 -> grown c us base (rs_idents s2) ->
+  find_bug (i_iid iss) (rs_bugs s2) = Some b0 -> b_ops b0 = ops0 ->
+  let r := finish c us iss ops0 s2 in
+  snd r = true /\ rs_fault (fst r) = None /\ grown c us base (rs_idents (fst r)) /\
+  (forall x, In x (rs_idents s2) -> In x (rs_idents (fst r))) /\
+  (forall iid', iid' <> i_iid iss -> find_bug iid' (rs_bugs (fst r)) = find_bug iid' (rs_bugs s2)) /\
+  exists b, find_bug (i_iid iss) (rs_bugs (fst r)) = Some b /\ inv_ops c iss (b_ops b) /\ (exists d, b_ops b = ops0 ++ d) /\
+    (forall e, In e (evs_of iss) -> person_ok c us base (ev_user e) = true -> settled c iss (b_ops b) e) /\
+    (forall e, In e (evs_of iss) -> e <> EError -> resolve (ev_id e) (b_ops b) <> LMany -> ensured c us (rs_idents (fst r)) (ev_user e)).
+Proof. intros Dd W F I G FB Eb. cbn zeta. unfold finish.
+  pose proof (events_clean c us iss base Dd W (evs_of iss) ops0 s2 F I G (evs_of_in_ev iss)) as H. cbn zeta in H.
+  destruct (fold_left (ensure_event c us iss) (evs_of iss) (ops0, s2)) as [ops1 s6]. cbn [fst snd] in H.
+  destruct H as [J1 [J2 [J3 [J4 [J5 [[d J6] [J7 [J8 _]]]]]]]].
+  destruct (Nat.eqb_spec (length ops1) (length ops0)) as [L|L]; cbn [fst snd].
+  - assert (d = []) by (rewrite J6, app_length in L; destruct d; [reflexivity|cbn in L; lia]).
+    subst d. rewrite app_nil_r in J6. subst ops1. cbn [rs_fault rs_idents rs_bugs emit].
+    split; [reflexivity|]. split; [exact J3|]. split; [exact J4|]. split; [exact J5|].
+    split; [intros iid' _; now rewrite J2|].
+    exists b0. rewrite J2. split; [exact FB|]. rewrite Eb. split; [exact J1|]. split; [exists []; now rewrite app_nil_r|]. split; assumption.
+  - cbn [rs_fault rs_idents rs_bugs set_bugs].
+    split; [reflexivity|]. split; [exact J3|]. split; [exact J4|]. split; [exact J5|].
+    split; [intros iid' Ne; rewrite find_put_other by (cbn; exact Ne); now rewrite J2|].
+    exists (mkbug (i_iid iss) ops1). split; [apply (find_put_same (mkbug (i_iid iss) ops1))|]. cbn [b_ops].
+    split; [exact J1|]. split; [eauto|]. split; assumption. Qed.
+
+Lemma finish_again c us iss s2 b : rs_fault s2 = None -> find_bug (i_iid iss) (rs_bugs s2) = Some b ->
+  (forall e, In e (evs_of iss) -> person_ok c us (rs_idents s2) (ev_user e) = true -> settled c iss (b_ops b) e) ->
+  (forall e, In e (evs_of iss) -> e <> EError -> resolve (ev_id e) (b_ops b) <> LMany -> ensured c us (rs_idents s2) (ev_user e)) ->
+  let r := finish c us iss (b_ops b) s2 in
+  snd r = true /\ rs_idents (fst r) = rs_idents s2 /\ rs_bugs (fst r) = rs_bugs s2 /\ rs_fault (fst r) = None.
+Proof. intros F FB S En. cbn zeta. unfold finish.
+  pose proof (events_noop c us iss (evs_of iss) (b_ops b) s2 F S En) as H. cbn zeta in H.
+  destruct (fold_left (ensure_event c us iss) (evs_of iss) (b_ops b, s2)) as [ops1 s6]. cbn [fst snd] in H.
+  destruct H as [-> [K2 [K3 K4]]]. rewrite Nat.eqb_refl. cbn. auto. Qed.
+
+(* what the bugs of the tracker's issues look like *)
+Definition bug_ok (c : cfg) (iss : issue) (bugs : list bug) : Prop :=
+  forall b, find_bug (i_iid iss) bugs = Some b -> inv_ops c iss (b_ops b).
+
+Lemma inv_ops_create c iss : op_valid c (create_op iss) = true -> inv_ops c iss [create_op iss].
+Proof. intros V. split; [|split].
+  - exists (create_op iss), []. repeat split. cbn. discriminate.
+  - constructor; [exact V|constructor].
+  - intros o q m [<-|[]]. cbn. discriminate. Qed.
+
+(* first time *)
+Lemma issue_first c us p iss s : c_dedupe_labels c = true -> (1 <= p)%nat -> wf_issue iss -> rs_fault s = None -> bug_ok c iss (rs_bugs s) ->
+  let r := import_issue c us p iss s in
+  rs_fault (fst r) = None /\ grown c us (rs_idents s) (rs_idents (fst r)) /\
+  (forall iid', iid' <> i_iid iss -> find_bug iid' (rs_bugs (fst r)) = find_bug iid' (rs_bugs s)) /\
+  bug_ok c iss (rs_bugs (fst r)) /\
+  (snd r = true -> issue_done c us iss (rs_idents (fst r)) (rs_bugs (fst r))) /\
+  (snd r = false -> rs_bugs (fst r) = rs_bugs s /\ rs_idents (fst r) = idents_after c us (rs_idents s) (i_author iss) /\
+                    (person_ok c us (rs_idents s) (i_author iss) = false \/
+                     (find_bug (i_iid iss) (rs_bugs s) = None /\ op_valid c (create_op iss) = false))).
+Proof. intros Dd Hp W F BO. cbn zeta. pose proof (import_issue_clean c us p iss s Hp F) as H. cbn zeta in H.
+  destruct (person_ok c us (rs_idents s) (i_author iss)) eqn:P.
+  2:{ destruct H as [s' [-> [A [B C]]]]. cbn [fst snd]. rewrite A, B.
+      split; [exact C|]. split; [apply grown_refl|]. split; [auto|]. split; [exact BO|]. split; [discriminate|].
+      intros _. split; [reflexivity|]. split; [|now left].
+      unfold idents_after. unfold person_ok in P. apply orb_false_iff in P as [P1 P2]. now rewrite P1, P2. }
+  assert (G1 : grown c us (rs_idents s) (idents_after c us (rs_idents s) (i_author iss))) by (apply grown_after, grown_refl).
+  assert (Au : In (i_author iss) (idents_after c us (rs_idents s) (i_author iss))) by (now apply idents_after_ok).
+  assert (Done : forall ops0 s2 b0, rs_idents s2 = idents_after c us (rs_idents s) (i_author iss) -> rs_fault s2 = None ->
+            inv_ops c iss ops0 -> find_bug (i_iid iss) (rs_bugs s2) = Some b0 -> b_ops b0 = ops0 ->
+            (forall iid', iid' <> i_iid iss -> find_bug iid' (rs_bugs s2) = find_bug iid' (rs_bugs s)) ->
+            let r := finish c us iss ops0 s2 in
+            rs_fault (fst r) = None /\ grown c us (rs_idents s) (rs_idents (fst r)) /\
+            (forall iid', iid' <> i_iid iss -> find_bug iid' (rs_bugs (fst r)) = find_bug iid' (rs_bugs s)) /\
+            bug_ok c iss (rs_bugs (fst r)) /\
+            (snd r = true -> issue_done c us iss (rs_idents (fst r)) (rs_bugs (fst r))) /\
+            (snd r = false -> rs_bugs (fst r) = rs_bugs s /\ rs_idents (fst r) = idents_after c us (rs_idents s) (i_author iss) /\
+                    (true = false \/ (find_bug (i_iid iss) (rs_bugs s) = None /\ op_valid c (create_op iss) = false)))).
+  { intros ops0 s2 b0 Ids F2 I0 FB Eb Fr. cbn zeta.
+    assert (G2 : grown c us (rs_idents s) (rs_idents s2)) by (now rewrite Ids).
+    pose proof (finish_first c us iss (rs_idents s) ops0 s2 b0 Dd W F2 I0 G2 FB Eb) as X. cbn zeta in X.
+    destruct (finish c us iss ops0 s2) as [s' go]. cbn [fst snd] in *.
+    destruct X as [-> [X2 [X3 [X4 [X5 [b [X6 [X7 [_ [X8 X9]]]]]]]]]].
+    split; [exact X2|]. split; [exact X3|]. split; [intros iid' Ne; rewrite X5 by exact Ne; now apply Fr|].
+    split; [intros b' Hb'; rewrite X6 in Hb'; now inversion Hb'; subst|].
+    split; [|discriminate]. intros _. split; [apply X4; now rewrite Ids|].
+    exists b. split; [exact X6|]. split; [exact X7|]. split; [|exact X9].
+    intros e He Pe. apply X8; [exact He|]. now rewrite <- (grown_ok c us (rs_idents s) _ _ X3). }
+  destruct (find_bug (i_iid iss) (rs_bugs s)) as [b|] eqn:FB.
+  - destruct H as [s2 [A [B [C ->]]]]. apply (Done (b_ops b) s2 b); auto; try congruence; try (intros; now rewrite B).
+  - destruct (op_valid c (create_op iss)) eqn:V.
+    + destruct H as [s2 [A [B [C ->]]]]. apply (Done [create_op iss] s2 (mkbug (i_iid iss) [create_op iss])); auto.
+      * now apply inv_ops_create.
+      * rewrite B. apply (find_put_same (mkbug (i_iid iss) [create_op iss])).
+      * intros iid' Ne. rewrite B. now apply find_put_other.
+    + destruct H as [s' [-> [A [B C]]]]. cbn [fst snd]. rewrite A, B.
+      split; [exact C|]. split; [exact G1|]. split; [auto|]. split; [exact BO|]. split; [discriminate|].
+      intros _. split; [reflexivity|]. split; [reflexivity|]. right. now split. Qed.
